@@ -18,7 +18,7 @@ def make_streams(ctx, exe):
     """list of (description, bytes) : single frames of every header layout, multi-frame, with skippable frames"""
     rng = ctx.rng
     lines, meta = [], []
-    n = 60 if ctx.quick() else 600
+    n = 60 if ctx.quick() else 250
     for i in range(n):
         kind, x = datagen.gen(rng, 3000 if ctx.quick() else 60000)
         flags = rng.randint(0, 3)
